@@ -23,7 +23,7 @@ Paths == {
   "listeners.2.auth.cache", "listeners.2.auth.cache.timeout", "listeners.2.allowUdp", "listeners.2.overrideUdpAddress",
   "listeners.3.target", "listeners.3.protocol", "listeners.4.tls", "listeners.4.bbr", "listeners.4.bind",
   "connectors.0", "connectors.0.name", "connectors.0.bind", "connectors.0.dns", "connectors.0.dns.servers", "connectors.0.dns.family", "connectors.0.fwmark", "connectors.0.keepalive",
-  "connectors.1.server", "connectors.1.port", "connectors.1.tls", "connectors.1.tls.insecure", "connectors.1.tls.ca", "connectors.1.tls.auth", "connectors.1.tls.auth.cert",
+  "connectors.1.server", "connectors.1.port", "connectors.1.tls", "connectors.1.tls.insecure", "connectors.1.tls.ca", "connectors.1.tls.auth", "connectors.1.tls.auth.cert", "connectors.1.tls.auth.key", "listeners.4.tls.key",
   "connectors.2.version", "connectors.2.auth", "connectors.2.auth.username",
   "connectors.3.connectors", "connectors.3.connectors.0", "connectors.3.algo", "connectors.3.name", "connectors.3.type",
   "connectors.4.tls", "connectors.4.bind", "connectors.4.inlineUdp", "connectors.4.port",
@@ -32,11 +32,21 @@ Paths == {
 Ops == [ delete |-> {"-"},
          retype |-> {"string", "int", "negint", "bool", "list", "map", "null", "float"},
          logscript |-> {"valid", "evalfail_always", "const_div0", "traffic_dependent_div", "traffic_dependent_index", "nonstring", "syntax"},
+         startup |-> {"no_slash", "wildcard", "bad_header", "unbindable", "wrong_pem"},
          value  |-> {"empty", "unknown_type", "deny", "huge", "bad_addr", "bad_port", "bad_path", "bad_script", "nonbool_script", "unknown_ref", "self_ref", "dup_name", "nul"} ]
+(* values that are well-formed for the loader's parser but that a later stage chokes on: a router prefix without      *)
+(* its slash or with a wildcard, a header value with a line break, an address that cannot be bound, a PEM file of       *)
+(* the wrong kind (certificate where a key is expected and the other way round)                                         *)
+StartupApplies(p, x) ==
+   CASE x \in {"no_slash", "wildcard"} -> p = "metrics.apiPrefix"
+     [] x = "bad_header" -> p = "metrics.cors"
+     [] x = "unbindable" -> p \in {"metrics.bind", "listeners.0.bind", "listeners.4.bind"}
+     [] x = "wrong_pem" -> p \in {"listeners.1.tls.cert", "listeners.1.tls.key", "listeners.1.tls.client.ca", "connectors.1.tls.ca", "connectors.1.tls.auth.cert", "connectors.1.tls.auth.key", "listeners.4.tls.key"}
 Rows == {<<p, o, x>> \in Paths \X (DOMAIN Ops) \X {"-", "string", "int", "negint", "bool", "list", "map", "null", "float", "empty", "unknown_type", "deny",
                                                   "huge", "bad_addr", "bad_port", "bad_path", "bad_script", "nonbool_script", "unknown_ref", "self_ref", "dup_name", "nul",
-                                                  "valid", "evalfail_always", "const_div0", "traffic_dependent_div", "traffic_dependent_index", "nonstring", "syntax"} :
-           x \in Ops[o] /\ ((o = "logscript") <=> (p = "accessLog.format"))}
+                                                  "valid", "evalfail_always", "const_div0", "traffic_dependent_div", "traffic_dependent_index", "nonstring", "syntax",
+                                                  "no_slash", "wildcard", "bad_header", "unbindable", "wrong_pem"} :
+           x \in Ops[o] /\ ((o = "logscript") <=> (p = "accessLog.format")) /\ (o = "startup" => StartupApplies(p, x))}
 AllowedLoad == {"accepted", "rejected"}        \* "panic", "hang", a signal: violations
 
 (* ---- load-balancer graphs ---- *)
